@@ -90,7 +90,7 @@ def main():
             "engine": "vf",
             "level_claimed": {"category": "exploration", "text": text, "design_ref": "DESIGN.md " + ref},
             "level_note": note,
-            "technique": tech + ("" if pid == "C20" else "; a seeded sample of the executed cases is re-run by the same check functions in child interpreters with PYTHONOPTIMIZE=1 (thorough: also 2), with -bb, after reloading every module of the package twice, under host-application settings (logging at DEBUG, import-time decimal context made coarse, signal flags set) and on the pure-Python decimal module"),
+            "technique": tech + ("" if pid == "C20" else "; a seeded sample of the executed cases is re-run by the same check functions in child interpreters with PYTHONOPTIMIZE=1 (thorough: also 2), with -bb, after reloading every module of the package twice, under host-application settings (logging at DEBUG, import-time decimal context made coarse, signal flags set, DefaultContext edited), on the pure-Python decimal module and in Python Development Mode"),
         })
     claimed = set(c["property_id"] for c in checks)
     man = {
